@@ -26,7 +26,7 @@ SCENARIOS = ['ctor', 'transfer:c2c', 'transfer:slice2c', 'transfer:plate2c', 're
              'create_solution:pure', 'create_solution:container', 'create_solution_from:pure',
              'create_solution_from:container', 'plate:c2slice', 'plate:c2plate', 'plate:slice2slice', 'plate:well2slice',
              'plate:slice2well', 'plate:same', 'plate:remove', 'plate:fill_to', 'slice:remove', 'slice:fill_to',
-             'plate:observers', 'recipe:transfer+fill', 'recipe:solution+from', 'recipe:plate', 'recipe:dest-slice']
+             'plate:observers', 'recipe:transfer+fill', 'recipe:solution+from', 'recipe:plate', 'recipe:dest-slice', 'recipe:remove-first']
 
 
 def cells(tier, seed):
@@ -88,6 +88,12 @@ class Watch:
         for label, obj, before in self.items:
             self.h.require('argument-unchanged', self.h.true(fp(obj) == before), region=f"{region}{stage}",
                            detail=f"{label} changed ({stage})")
+            # observably unchanged also means: what its observers answer still follows from its fields
+            if type(obj).__name__ == 'Container':
+                self.h.require('argument-observers-unchanged',
+                               self.h.true(obj.get_substances() == set(obj.contents) and
+                                           obj.has_liquid() == any(s.is_liquid() for s in obj.contents)),
+                               region=f"{region}{stage}", detail=f"{label}: get_substances()/has_liquid() no longer match its contents ({stage})")
 
 
 def _mk_plate(h, lib, name, shape, subs, cap, lo=Fr(1, 100), hi=10**4):
@@ -215,7 +221,13 @@ def h_scenario(h):
             B = W.add('declared B', mk_container(h, lib, 'B', ['water'], cap=cap, lo=1, hi=10**3))
             h.assume(h.le(B.volume, cap))
             rec = Recipe()
-            if sc == 'recipe:dest-slice':
+            if sc == 'recipe:remove-first':
+                # remove is the first step touching the declared container (its state equals the caller's object)
+                rec.uses(A, B)
+                rec.remove(A, water)
+                rec.remove(B, S.SOLID)
+                rec.transfer(A, B, f"{q} uL")
+            elif sc == 'recipe:dest-slice':
                 # a destination slice the caller keeps; an earlier step changes the plate it points to
                 W.items = [it for it in W.items if it[0] not in ('declared A', 'declared B')]
                 A = W.add('declared A', mk_container(h, lib, 'A', ['water'], lo=100, hi=10**6))
